@@ -150,8 +150,8 @@ def r09_1(chk):
                     chk.unresolved("R09.3", k3, m.loc(fn), "may return the receiver itself")
                 else:
                     chk.ok("R09.3", k3, m.loc(fn), "fresh tree, nothing of the receiver stored in it")
-    chk.floor("R09.1", 50, "~36 operations x 2 classes")
-    chk.floor("R09.3", 20, "15 new-tree operations x 2 classes")
+    chk.floor("R09.1", 30, "~36 operations (violations of one implementation resolved for both classes count once)")
+    chk.floor("R09.3", 14, "15 new-tree operations (counted once per implementation when violated)")
 
 
 def r09_2(chk):
